@@ -301,6 +301,7 @@ func (r *yieldRewriter) rewriteStmt(
 		// ↓↓ trival branch ↓↓
 		// all other stmt are trival,
 		// no rewriting, no combine
+		r.assert(r.mustNoYield(stmt), stmt, "yield not supported in %T", stmt)
 		children.push(stmt, kindTrival)
 		return children
 	}
